@@ -299,6 +299,7 @@ package buffer
 //@   ensures_panic {C15} spill_file_of_this_attempt_removed: !bw.buffer.spilled
 //@   ensures {C15} reader_of_this_attempt_closed: rdr != nil ==> !rdr.owns
 //@   at_call multibuf.New {C15} request_limit_applies_to_every_body: calls(MaxBytes) == 1 && callarg(MaxBytes, 0, 0) == b.maxRequestBodyBytes && len(arg1) >= 1 && arg1[0] == callres(MaxBytes, 0, 0)
+//@   at_call multibuf.New {C06,C15} the_body_that_is_buffered_is_the_requests: arg0 == old(req.Body)
 //@   at_call multibuf.NewWriterOnce {C15} response_limit_applies_to_every_attempt: calls(MaxBytes) == 2 && callarg(MaxBytes, 1, 0) == b.maxResponseBodyBytes && len(arg0) >= 1 && arg0[0] == callres(MaxBytes, 1, 0)
 //@   at_call b.next.ServeHTTP {C15} within_declared_limit: !(b.maxRequestBodyBytes > 0 && req.ContentLength > b.maxRequestBodyBytes)
 //@   at_call b.next.ServeHTTP {C06} fresh_copy: arg1 != req && fresh(arg1) && fresh(arg1.URL) && fresh(arg1.Header)
